@@ -101,7 +101,7 @@ class H1Client:
                 body = poff + (wend - wstart)
             elif upto > wstart:
                 body = poff + (upto - wstart)
-        return {"head": upto >= r["head_end"], "body": body, "done": upto >= r["end"]}
+        return {"head": upto >= r["head_end"], "body": body, "done": upto >= r["end"], "begun": upto > r["start"]}
 
     # -- observing -----------------------------------------------------------------------
     def current_rid(self) -> str:
